@@ -309,6 +309,9 @@ def run(ctx, rep):
 
 _U = "flumine/utils.py"
 MUTANTS = [
+    dict(id="c17-payout-reads-bsp-column", file="flumine/clients/betfairclient.py", func="BetfairClient.min_bet_payout",
+         old="                    \"min_bet_payout\"\n", new="                    \"min_bsp_liability\"\n", expect=["R2"],
+         why="EUR accounts get a payout threshold of 10 instead of 20"),
     dict(id="c17-fast-path-fixed-ladder", file=_U, func="get_nearest_price",
          old="    price = as_dec(price)\n    for cutoff, step in cutoffs:", new="    if price in PRICES_FLOAT:\n        return float(price)\n    price = as_dec(price)\n    for cutoff, step in cutoffs:",
          expect=["R3"], why="classic ticks returned for the Betdaq ladder"),
